@@ -1430,10 +1430,6 @@ func (m *Machine) call(x *ssa.Call, state map[string]Vec) {
 				state[k] = v
 			}
 		}
-		if w == 0 {
-			// no scalar result to bind: the callee was executed for the values it computes (EachValue)
-			return
-		}
 		// comparisons made by the callee on the caller's bits are the caller's comparisons too
 		// (a test moved into a predicate method such as IsFragmentationUnit)
 		if len(sub.Cmps) > 0 {
@@ -1445,6 +1441,10 @@ func (m *Machine) call(x *ssa.Call, state map[string]Vec) {
 					m.Cmps[k] = ci
 				}
 			}
+		}
+		if w == 0 {
+			// no scalar result to bind: the callee was executed for the values it computes (EachValue)
+			return
 		}
 		// single-valued result: mux over returns is not attempted; require all returns equal
 		var res Vec
@@ -1722,6 +1722,16 @@ func (m *Machine) iterationLocalSlice(sl ssa.Value) bool {
 	}
 	mk, ok := root.(*ssa.MakeSlice)
 	return ok && m.inLoop[mk.Block()]
+}
+
+// AllStores lists the stores executed by the machine and by the callees it expanded (a field decoded in a
+// helper method that received the receiver is stored there under the caller's name for the cell).
+func (m *Machine) AllStores() []StoreRec {
+	out := append([]StoreRec(nil), m.Stores...)
+	for _, s := range m.Subs {
+		out = append(out, s.AllStores()...)
+	}
+	return out
 }
 
 // InLoop reports whether block b belongs to a loop.
